@@ -201,7 +201,10 @@ def run(chk):
         chk.fail("oracle", "tables:duplicate-prim-name", {}, "prims() has a repeated name")
 
     # B/C. one-operator programs
-    argsets = {n: [[], [b"\x01"], [b"\x01", b"\x02"], [b"\x07", b"\x03", b"\x05"], [(b"\x01", b"\x02")]] for n in names}
+    argsets = {n: [[], [b"\x01"], [b"\x01", b"\x02"], [b"\x07", b"\x03", b"\x05"], [(b"\x01", b"\x02")],
+                   # negative / top-bit operands: where signed and unsigned readings of an operand part ways
+                   [b"\xff", b"\x01"], [b"\x80", b"\x02"], [b"\xff\x7f", b"\x03"], [b"\xfb", b"\xfe"], [b"\x00\x80", b"\xff"]]
+               for n in names}
     canned = {
         b"sha256": [[b"abc"]], b"keccak256": [[b"abc"], [b"abc", b"de"]], b"%": [[b"\x07", b"\x03"], [b"\x08", b"\x03"]],
         b"modpow": [[b"\x02", b"\x0a", b"\x07"]], b"coinid": [[bytes(32), bytes(range(32)), b"\x05"]],
@@ -273,6 +276,11 @@ def run(chk):
                          f"named in version {v} but the runner of that version says unimplemented operator")
         if f["rd"] != ref:
             chk.fail("oracle", "tables:default-runner-differs", case, f"default runner {f['rd'][:60]}, clvmr {ref[:60]}")
+        for v in range(3):
+            # every runner version that names the operator computes what clvmr computes for it
+            if n in rt["to"][v] and f[f"r{v}"] != "unimpl" and f[f"r{v}"] != ref:
+                chk.fail("oracle", "tables:runner-version-differs", dict(case, version=v),
+                         f"runner of operators version {v} gives {f[f'r{v}'][:60]}, clvmr {ref[:60]}")
         collide = opatom in prim_names
         if f["st"] != ref:
             chk.fail("oracle", SIG_STEPPER if collide else "tables:stepper-differs", case,
